@@ -127,6 +127,11 @@ def c18():
             argv('DEL', 'k'), argv('FLUSHDB'), argv('FLUSHALL'), argv('MULTI'), argv('EXEC'), argv('LPUSH', 'k', 'a'), argv('KEYS', '*'),
             argv('DBSIZE'), argv('RENAME', 'k', 'l')]
 
+def blocking():
+    Z = b'\x00'
+    return [argv('BLPOP', 'q', '0'), argv('BRPOP', 'q', '0'), argv('BLPOP', 'q', 'r', '0'), argv('BLPOP', 'r', '1'),
+            argv('RPUSH', 'q', Z), argv('RPUSH', 'q', Z, Z), argv('LPUSH', 'r', Z), argv('LPOP', 'q'), argv('RPOP', 'r')]
+
 def auth():
     return [argv('AUTH', 'pw'), argv('AUTH', 'p'), argv('AUTH', 'PW'), argv('AUTH'), argv('AUTH', 'pw', 'x'), argv('PING'),
             argv('SET', 'k', 'a'), argv('GET', 'k'), argv('MULTI'), argv('EXEC'), argv('FLUSHALL'), argv('SELECT', '1'),
@@ -144,6 +149,7 @@ def main():
     out.append(cat('Cat_Txn', txn(True)))
     out.append(cat('Cat_Txn_quick', txn(False)))
     out.append(cat('Cat_C18', c18()))
+    out.append(cat('Cat_Blocking', blocking()))
     out.append(cat('Cat_Auth', auth()))
     out.append(cat('Cat_PubSub', pubsub(True)))
     out.append(cat('Cat_PubSub_quick', pubsub(False)))
